@@ -66,6 +66,17 @@ class C18(Prop):
                     c.tags.add("nt")
                 out.append(c)
                 k += 1
+        # views of more than 4 GiB (a sparse file: the 12 bytes with a hole of 2^32 … 2^33 zero bytes in the middle)
+        G = 1 << 32
+        for hl in (G, G + 0x1234, 2 * G):
+            for (a, b) in ((0, hl + 12), (3, hl + 10), (5, hl + 6), (hl + 7, hl + 11), (2, G + 2)):
+                for ops in (["read 1", "read 3", "read 100"], ["seek start 2", "read 3", "seek end -3", "read 100"],
+                            ["seek start %d" % (b - a - 2), "read 3", "seek cur -%d" % G, "read 2"], ["read 3", "seek cur %d" % G, "read 100", "seek start 1", "read 1"],
+                            ["seek end -1", "read 1", "read 1", "seek start 0", "read 6"]):
+                    c = CaseT(f"fv{k}", "fileview", [a, b], ["TEXT " + FILE12.hex(), f"HOLE 6 {hl}"] + ["OP " + o for o in ops])
+                    c.tags |= {"fileview", "view_over_4GiB", "nt"}
+                    out.append(c)
+                    k += 1
         # --- indexer + chunker files
         maxrun = 3
         nchrom = 4 if tier == "thorough" else 3
@@ -215,6 +226,8 @@ class C18(Prop):
     def compare(self, case, il, ml):
         if case.tags & {"ungrouped_parallel", "ungrouped_serial"}:
             return None                      # judged pairwise: the model's sources see the rows in file order
+        if "view_over_4GiB" in case.tags:
+            return None                      # the model driver holds a file as a list of bytes; judged by the oracle
         return super().compare(case, il, ml)
 
     def nontrivial(self, case, il):
@@ -227,24 +240,31 @@ class C18(Prop):
             return None                      # judged pairwise in extra_checks (serial vs parallel on the same rows)
         if case.kind == "fileview":
             data = unhex(case.records("TEXT")[0][1])
-            a, b = int(case.args[0]), min(int(case.args[1]), len(data))
-            sl = data[a:b]
+            hole = case.records("HOLE")
+            hp, hl = (int(hole[0][1]), int(hole[0][2])) if hole else (0, 0)
+            total = len(data) + hl
+
+            def image(x, y):
+                """bytes [x, y) of the file: the text with hl zero bytes inserted at hp (y − x is small)"""
+                return bytes((data[q] if q < hp else (0 if q < hp + hl else data[q - hl])) for q in range(x, min(y, total)))
+            a, b = int(case.args[0]), min(int(case.args[1]), total)
+            vlen = max(0, b - a)
             pos = 0
             want = []
             for op in case.records("OP"):
                 if op[1] == "read":
                     n = int(op[2])
-                    chunk = sl[pos:pos + n]
+                    chunk = image(a + pos, a + min(vlen, pos + n))
                     pos += len(chunk)
                     want.append("O bytes " + (chunk.hex() or "-"))
                 else:
                     k = int(op[3])
                     if op[2] == "start":
-                        pos = min(k, len(sl))
+                        pos = min(k, vlen)
                     elif op[2] == "cur":
-                        pos = max(0, min(len(sl), pos + k))
+                        pos = max(0, min(vlen, pos + k))
                     else:
-                        pos = max(0, min(len(sl), len(sl) + min(k, 0)))
+                        pos = max(0, min(vlen, vlen + min(k, 0)))
                     want.append(f"O pos {pos}")
             if il != want:
                 for i, (x, y) in enumerate(zip(il + ["<missing>"] * len(want), want)):
